@@ -41,6 +41,13 @@ impl Prop for C11 {
       },
     ]
   }
+  fn stages(&self, ctx: &Ctx) -> Vec<Stage> {
+    if ctx.tier == Tier::Thorough {
+      crate::fuzz::campaigns("C11", &["tree_c11"], ctx)
+    } else {
+      vec![]
+    }
+  }
   fn check(&self, case: &TreeCase) -> CheckResult {
     let spec = &case.spec;
     let text = model_text(spec);
